@@ -14,7 +14,7 @@ RUNNER = os.path.join(ML, "runner")
 TRUSTED_BASE = [
     "Coq 8.16.1 kernel incl. its bytecode VM (vm_compute in the in-Coq case evaluation, refutation witnesses and finite sweeps); no native_compute",
     "axioms: none (every Print Assumptions reports 'Closed under the global context'; standard library only: List, NArith, ZArith, Lia, Bool, Byte, PeanoNat, Zify*)",
-    "tools/gen_tables.py + tools/rsexpr.py: translator of the Rust sources into Model/Generated.v — enum/constant tables; the decoder's opcode dispatch, the request variant each body parser builds, the handler's routing (request variant -> handler -> filter); and, as Rust integer expressions with overflow = None (Model/RustInt.v), header_valid, request_valid, every comparison with the item size limit, the expiry tests of check_if_expired, the re-dating test of a delayed flush, the counter arithmetic of add_delta, get_value_len and the body lengths the incr/decr and set parsers require, the field order/widths of both headers, and the sequence of buffer reads (get_uN / split_to, with the field each goes into) of the set, incr/decr, append/prepend, get and delete parsers, and the sequence of writes of every arm of encode_data / write_data. Regex/recursive-descent over the source text, not a Rust front end: a function whose shape it does not recognise is reported (coverage.not_translated) and left to the correspondence check alone",
+    "tools/gen_tables.py + tools/rsexpr.py: translator of the Rust sources into Model/Generated.v — enum/constant tables; the decoder's opcode dispatch, the request variant each body parser builds, the handler's routing (request variant -> handler -> filter); and, as Rust integer expressions with overflow = None (Model/RustInt.v), header_valid, request_valid, every comparison with the item size limit, the expiry tests of check_if_expired, the re-dating test of a delayed flush, the counter arithmetic of add_delta, get_value_len and the body lengths the incr/decr and set parsers require, the field order/widths of both headers, and the sequence of buffer reads (get_uN / split_to, with the field each goes into) of the set, incr/decr, append/prepend, get and delete parsers, the sequence of writes of every arm of encode_data / write_data, the flush parser's conditional read, and the order of the tests of Decoder::decode. Regex/recursive-descent over the source text, not a Rust front end: a function whose shape it does not recognise is reported (coverage.not_translated) and left to the correspondence check alone",
     "extraction: Require Extraction + ExtrOcamlBasic (Extract Inductive for bool, option, unit, list, prod, sumbool; no Extract Constant), OCaml 4.13.1, runner/runner.ml glue (hex/decimal parsing, Obj.magic int<->byte self-checked at start-up); the glue is cross-checked by evaluating a sample of every kind of case inside Coq",
     "correspondence: Rust harness (generators, canonicalisation, seq connection emulation, schedulers, logging Cache interposers Spy/ScanSpy/OuterSpy, timed probes) — differential testing, bounds the assurance",
     "the memcrsd binary run by the configuration profile is built by the check from /repo (same flags as the harness); /proc/net/tcp (accept-queue lengths, mlimit profile) and /proc/self/task/*/stat (blocked-client detection) are read as the kernel reports them",
